@@ -155,9 +155,19 @@ size_t wcslen(const int* s) { size_t n = 0; while (s[n]) n++; return n; }
 /* time zone model: UTC (localtime == gmtime) */
 struct vtm { int tm_sec, tm_min, tm_hour, tm_mday, tm_mon, tm_year, tm_wday, tm_yday, tm_isdst; long tm_gmtoff; const char* tm_zone; };
 static struct vtm vtm_buf;
+int vp_is_symbolic_l(long x); int vp_range(int lo, int hi);
 struct vtm* gmtime(const long* tp)
 {
-	long t = *tp; long days = t / 86400; long rem = t % 86400; if (rem < 0) { rem += 86400; days--; }
+	long t = *tp;
+	if (vp_is_symbolic_l(t)) {
+		/* symbolic instant: "some valid broken-down time" (over-approximation: the calendar computation below on a symbolic
+		   64-bit value is beyond the solver); callers that need the exact fields pass concrete instants */
+		vtm_buf.tm_hour = vp_range(0, 23); vtm_buf.tm_min = vp_range(0, 59); vtm_buf.tm_sec = vp_range(0, 59); vtm_buf.tm_wday = vp_range(0, 6);
+		vtm_buf.tm_mday = vp_range(1, 31); vtm_buf.tm_mon = vp_range(0, 11); vtm_buf.tm_year = vp_range(-1899, 8099); vtm_buf.tm_yday = vp_range(0, 365);
+		vtm_buf.tm_isdst = 0; vtm_buf.tm_gmtoff = 0; vtm_buf.tm_zone = "UTC";
+		return &vtm_buf;
+	}
+	long days = t / 86400; long rem = t % 86400; if (rem < 0) { rem += 86400; days--; }
 	vtm_buf.tm_hour = (int)(rem / 3600); vtm_buf.tm_min = (int)((rem / 60) % 60); vtm_buf.tm_sec = (int)(rem % 60);
 	vtm_buf.tm_wday = (int)((days % 7 + 11) % 7);
 	long z = days + 719468; long era = (z >= 0 ? z : z - 146096) / 146097; long doe = z - era * 146097;
